@@ -37,6 +37,8 @@ def build_scripts(tier, seed, rep):
         modes = ["whole", "bytes", "cut1", "rand"]
         if tier == "thorough" and (success or sc["code"] in QUICK_CODES):
             modes.append("cut2")
+        if sc["alen"] > 3:
+            modes = ["whole", "rand", "longcut"]      # long names: the cuts around the length byte, not every cut
         for mode in modes:
             for sizes in sk.chunkings(n, mode, rng):
                 script = [dict(a="Deliver", n=k) for k in sizes]
